@@ -201,6 +201,47 @@ func (s *capSender) Send(tg []byte) {
 	s.mu.Unlock()
 }
 
+// capService stands for the network + replica end of the REAL replication.Sender: what the sender's goroutine delivers is
+// captured in arrival order.  The first delivery can be made slow (a slow link for one message).
+type capService struct {
+	s         *capSender
+	slowFirst time.Duration
+	n         int32
+}
+
+func (c *capService) SendReplicationMessage(tg []byte) {
+	if atomic.AddInt32(&c.n, 1) == 1 && c.slowFirst > 0 {
+		time.Sleep(c.slowFirst)
+	}
+	c.s.Send(tg)
+}
+
+var realSenderCancel context.CancelFunc
+
+// repl_real_sender {"slow_first_ms": n} | {"off": true}: route the master's transaction groups through replication.Sender
+// (its channel and goroutine) into the capturing end, or back to the plain capturing sender
+func replRealSender(c *drv.Ctx, o *drv.Op) drv.Obs {
+	var a struct {
+		Off         bool `json:"off"`
+		SlowFirstMs int  `json:"slow_first_ms"`
+	}
+	_ = json.Unmarshal(o.X, &a)
+	if realSenderCancel != nil {
+		realSenderCancel()
+		realSenderCancel = nil
+	}
+	if a.Off {
+		master.WAL.ReplicationSender = sender
+		return drv.Obs{"ok": true}
+	}
+	rs := replication.NewSender(&capService{s: sender, slowFirst: time.Duration(a.SlowFirstMs) * time.Millisecond})
+	var ctx context.Context
+	ctx, realSenderCancel = context.WithCancel(context.Background())
+	rs.Run(ctx)
+	master.WAL.ReplicationSender = rs
+	return drv.Obs{"ok": true}
+}
+
 var (
 	master, replica *inst.Instance
 	sender          *capSender
@@ -336,9 +377,22 @@ func replGroup(c *drv.Ctx, o *drv.Op) drv.Obs {
 func replSync(c *drv.Ctx, o *drv.Op) drv.Obs {
 	var sa struct {
 		Refs bool `json:"refs"`
+		Wait int  `json:"wait"` // wait until this many groups have arrived (asynchronous delivery through the real sender)
 	}
 	if len(o.X) > 0 {
 		_ = json.Unmarshal(o.X, &sa)
+	}
+	if sa.Wait > 0 {
+		deadline := time.Now().Add(8 * time.Second)
+		for time.Now().Before(deadline) {
+			sender.mu.Lock()
+			n := len(sender.tgs) - sent
+			sender.mu.Unlock()
+			if n >= sa.Wait {
+				break
+			}
+			time.Sleep(2 * time.Millisecond)
+		}
 	}
 	sender.mu.Lock()
 	src := sender.tgs
@@ -417,6 +471,7 @@ func replayOne(tg []byte) (res interface{}) {
 }
 
 func init() {
+	drv.Extra["repl_real_sender"] = replRealSender
 	drv.Extra["agg_start"] = aggStart
 	drv.Extra["agg_wait"] = aggWait
 	drv.Extra["repl_start"] = replStart
